@@ -55,6 +55,10 @@ var CannedResponses = []Canned{
 	{429, "application/json", `{"error":"too many requests","retry_after":3}`},
 	{418, "application/json", `[1,2,3]`},
 	{599, "application/json", `"just a string"`},
+	{202, "application/json", `{}`},
+	{299, "", ""},
+	{203, "application/json", `{"id":1,"name":"x"}`},
+	{400, "text/plain", "bad request from a gateway"},
 }
 
 func CutsFor(mode int, n int, rng *rand.Rand) []int {
